@@ -182,7 +182,11 @@ the current instruction (`np-env-slots`). The lambda clause is not evaluated on 
 def noPanicCheck (syn : Bool) (s : St CHeap) : Option String :=
   if !syn && !heapNPB s.heap then some "np-lambda" else
   if !contFitsB s then some "np-cont-fits" else
-  if !envSlotsB s then some "np-env-slots" else none
+  if !envSlotsB s then some "np-env-slots" else
+  -- the invariant form of the slot clause (evaluated on every real state; not yet proved preserved)
+  if !closFitB s.heap then some "np-clos-fit" else
+  if !syn && !childEnvB s.heap then some "np-child-env" else
+  if !frameEnvB s then some "np-frame-env" else none
 
 def isSynthetic (info : String) : Bool := (info.splitOn "+syn").length > 1
 
